@@ -87,6 +87,30 @@ def run_tc(ctx, cls):
         ctx.coverage["traces_validated_against_impl"] += runs - bad_runs
         if b == 0:
             ctx.sample({"kind": "recorded 64-bit history (first events of one run)", "events": events[:6]})
+    if cls == "credit":
+        # concurrent part: a credit wait parked on real threads while other threads ack / send / advance / resume / cancel
+        # (C12's engine, systematic two-operation signaller programmes only); a wait that returns Ok although the
+        # specification's wait condition is false in that state is an over-grant
+        tr, sm = ctx.work / "credit-sync.ndjson", ctx.work / "credit-sync.json"
+        ctx.vh("tc-sync", "--seed", ctx.seed * 100 + 77, "--schedules", 0 if q else 300, "--systematic-depth", 2, "--watchdog-ms", 300, "--max-lost", 100000,
+               "--out", tr, "--summary", sm, timeout=1500)
+        cur = tr
+        for attempt in range(40):
+            r = ctx.tlc_trace("Trace_TransferSync", "Trace_TransferSync.cfg", cur)
+            if r["accepted"]:
+                break
+            evs = vlib.read_ndjson(cur)
+            line = r["unmatched"]
+            ev = evs[line - 1] if line and line <= len(evs) else {}
+            start, run_evs = vlib.run_of_line(evs, line)
+            if ev.get("ev") == "w_return" and ev.get("kind") == "credit" and ev.get("res") == "ok":
+                ctx.violation("tc-sync:over-grant", f"wait_for_credit returned Ok on real threads in a state where the window does not allow the chunk: {json.dumps(ev)}", {"run_events": run_evs, "line": line})
+            else:
+                ctx.coverage.setdefault("other_property_disagreements", []).append(f"sync:{ev.get('ev')}")
+            rest = evs[:start] + evs[start + len(run_evs):]
+            cur = ctx.work / f"credit-sync-r{attempt}.ndjson"
+            cur.write_text("".join(json.dumps(e) + "\n" for e in rest))
+        ctx.coverage["concurrent_credit_schedules"] = json.loads(sm.read_text())["schedules"]
     ctx.coverage["distinct_nontrivial"] += total_runs
     ctx.coverage["rule"] = ("distinct label paths of length >= 2 walked on the real object (hashed label/state sequences) "
                             "plus recorded random histories of 200 calls (each from its own RNG stream)")
